@@ -71,6 +71,14 @@ def gen(streams, tier, i):
             ops.insert(pos + 2, {"op": "burst", "calls": [
                 {"on": "named", "name": nm, "q": q_, "i": 0, "j": 1, "arg": "A"}
                 for q_ in ("str_wo_seq", "str", "to_list", "validate", "clone", "str_wo_seq", "get_all")]})
+    if scn["cfg"]["version"] == "gfa2" and qx.random() < 0.25:
+        # searches for record types that have no line yet, then lines of those types arrive
+        types = ["X", "Y", "Zz", "LEN", "Q"]
+        k_ = qx.randrange(5)
+        ops.append({"op": "burst", "calls": [{"on": "gfa", "q": "select", "i": k_, "j": 0, "arg": "A"}]})
+        first = types[(k_ + 1 + qx.randrange(4)) % 5]
+        ops.append({"op": "add", "line": "%s\tq1\tzz:i:1" % first, "as": "str"})
+        ops.append({"op": "add", "line": "%s\tq2" % types[k_], "as": "str"})
     qr = streams.get("queries")
     nb = qr.randint(2, 6 if tier == "quick" else 10)
     for _ in range(nb):
